@@ -419,7 +419,8 @@ func (nh *NodeHost) Close() {
 	plog.Debugf("%s is stopping the engine module", nh.describe())
 	if nh.engine != nil {
 		err = firstError(err, nh.engine.close())
-		nh.engine = nil
+		// nh.engine is not cleared: request methods that passed their closed check
+		// before Close() was called still use it to mark their shard as ready
 		nh.transport = nil
 	}
 	plog.Debugf("%s is stopping the logdb module", nh.describe())
